@@ -18,10 +18,23 @@ MAP_FIXED = os.environ.get("C14_MAP_FIXED", "1") == "1"   # default: the repaire
 
 ORDER_CLASS = "map-order-multiprocess"
 RACE_CLASS = "run-jobs-startup-race"
+GRIDFAIL_CLASS = "grid-parallel-failing-cell"
+SNEAKIER_CLASS = "sneakier-two-pools-constructed"
 
 
 def fval(x):
     return x * x + 3 * x + 7
+
+
+def expected_outcome(batch, x, m):
+    """what evaluating one input of an smap batch gives (independent of the implementation)"""
+    if m == 1:
+        return ["exc", x]
+    if batch.get("scalar"):
+        return ["ok", fval(x)]
+    if batch.get("fitpos") is not None:
+        return ["ok", fval(x) * 100 + 10 + batch["fitpos"]]
+    return ["ok", fval(x)]
 
 
 # ---------------------------------------------------------------------------
@@ -82,7 +95,15 @@ def gen_smap(rng, thorough):
         sched = interleave_polls(rng, [["F", w] for w in order], procs, rng.choice(["late-main", "eager-main", "mixed", "mixed", "mixed"]))
         if rng.random() < 0.2:           # completions of workers that have nothing to do are no-ops
             sched.insert(rng.randint(0, len(sched)), ["F", rng.randrange(procs)])
-        batches.append({"jobs": jobs, "sched": sched})
+        batch = {"jobs": jobs, "sched": sched}
+        shape = rng.random()
+        if shape < 0.12:                 # plain numbers as arguments (wrapped as (x,) by map): distinct, never failing
+            xs = rng.sample(range(1, 60), size)
+            batch["jobs"] = [[x, 0] for x in xs]
+            batch["scalar"] = True
+        elif shape < 0.36:               # the pool's fitness object among the arguments, at position 0, 1 or 2
+            batch["fitpos"] = rng.choice([0, 1, 1, 2, 2])
+        batches.append(batch)
     return {"kind": "smap", "procs": procs, "batches": batches}
 
 
@@ -93,7 +114,10 @@ def gen_smap_free(rng):
         size = rng.randint(0, 8)
         fail_p = rng.choice([0, 0, 0.3])
         jobs = [[x, m, rng.choice([0, 0, 1, 3, 8, 15])] for x, m in gen_jobs(rng, size, fail_p, list(range(40)))]
-        batches.append({"jobs": jobs})
+        batch = {"jobs": jobs}
+        if rng.random() < 0.3:           # results of 1.2 MB each: the workers' feeder threads block on full pipes
+            batch["big"] = True
+        batches.append(batch)
     return {"kind": "smap_free", "procs": procs, "batches": batches}
 
 
@@ -157,6 +181,32 @@ def gen_jobs_case(rng, thorough):
     return {"kind": "jobs", "cores": cores, "jobs": jobs, "sched": sched}
 
 
+def gen_caller(rng, kind):
+    """the real GridSearch.fit / Sensitivity.run on cores processes, steered like a jobs case"""
+    cores = rng.choice([2, 3, 3, 4])
+    nw = cores - 1
+    if kind == "grid_fit":
+        n, grid = rng.choice([(2, ["a"]), (3, ["a"]), (4, ["a"]), (2, ["a", "b"]), (3, ["b", "a"])])
+        total = n ** len(grid)
+    else:
+        n, grid = rng.choice([2, 3, 4, 5]), None
+        total = n
+    fail = sorted(rng.sample(range(total), rng.choice([1, 1, 2]))) if rng.random() < 0.4 else []
+    takes = [rng.randrange(nw) for _ in range(total + rng.choice([0, 1, nw]))]
+    sched = interleave_polls(rng, [["T", w] for w in takes], nw, rng.choice(["late-main", "eager-main", "mixed", "mixed"]))
+    c = {"kind": kind, "n": n, "cores": cores, "fail": fail, "sched": sched}
+    if grid:
+        c["grid"] = grid
+    return c
+
+
+def gen_sneakier(rng):
+    order = rng.choice(["single", "sequential", "sequential", "constructed-first"])
+    k = 1 if order == "single" else 2
+    pools = [{"mul": m, "xs": rng.sample(range(1, 50), rng.randint(1, 5))} for m in rng.sample([2, 3, 5, 7, 100], k)]
+    return {"kind": "sneakier", "procs": rng.choice([1, 2, 3]), "order": order, "pools": pools}
+
+
 def gen_jobs_free(rng):
     cores = rng.choice([2, 3, 4])
     size = rng.randint(0, 8)
@@ -181,6 +231,18 @@ FIXED_CASES = [
      "sched": [["T", 1], ["T", 0], ["P"], ["T", 1], ["T", 1], ["P"], ["T", 0]]},
     # an exception early: the double count ends the collection before every job has been taken
     {"kind": "jobs", "cores": 2, "jobs": [[1, 1], [2, 0], [3, 0]], "sched": [["T", 0], ["P"], ["P"], ["T", 0], ["P"], ["P"], ["P"], ["T", 0]]},
+    # SneakyJob argument handling: fitness object at position 1 / last, plain numbers, two fitness objects
+    {"kind": "smap", "procs": 2, "batches": [
+        {"jobs": [[5, 0], [6, 0], [7, 1]], "fitpos": 1, "sched": [["F", 1], ["P"], ["F", 0], ["F", 0]]},
+        {"jobs": [[3, 0], [4, 0]], "scalar": True, "sched": [["F", 1], ["F", 0]]},
+        {"jobs": [[8, 0], [9, 0]], "fitpos": 2, "sched": [["F", 1], ["F", 0]]}]},
+    {"kind": "smap_twofit", "procs": 2},
+    # the real callers, one failing cell
+    {"kind": "grid_fit", "n": 3, "grid": ["a"], "cores": 3, "fail": [1], "sched": [["T", 1], ["T", 0], ["P"], ["T", 1], ["P"], ["P"], ["P"]]},
+    {"kind": "sens_fit", "n": 3, "cores": 3, "fail": [2], "sched": [["T", 1], ["T", 0], ["P"], ["T", 1], ["P"], ["P"], ["P"]]},
+    # two SneakierPools constructed before the first is used
+    {"kind": "sneakier", "procs": 2, "order": "constructed-first", "pools": [{"mul": 3, "xs": [1, 2, 3]}, {"mul": 100, "xs": [1, 2]}]},
+    {"kind": "smap_free", "procs": 3, "batches": [{"jobs": [[5, 0, 3], [6, 0, 0], [7, 0, 1], [8, 0, 0]], "big": True}]},
 ]
 
 
@@ -189,14 +251,17 @@ def gen_cases(ctx):
     thorough = ctx.tier == "thorough"
     k = 5 if thorough else 1
     cases = [json.loads(json.dumps(c)) for c in FIXED_CASES]
-    cases += [gen_smap(rng, thorough) for _ in range(90 * k)]
-    cases += [gen_init(rng, thorough) for _ in range(40 * k)]
-    cases += [gen_emcee(rng) for _ in range(12 * k)]
-    cases += [gen_jobs_case(rng, thorough) for _ in range(60 * k)]
+    cases += [gen_smap(rng, thorough) for _ in range(80 * k)]
+    cases += [gen_init(rng, thorough) for _ in range(36 * k)]
+    cases += [gen_emcee(rng) for _ in range(10 * k)]
+    cases += [gen_jobs_case(rng, thorough) for _ in range(50 * k)]
     cases += [gen_smap_free(rng) for _ in range(6 * k)]
     cases += [gen_jobs_free(rng) for _ in range(5 * k)]
+    cases += [gen_caller(rng, "grid_fit") for _ in range(8 * k)]
+    cases += [gen_caller(rng, "sens_fit") for _ in range(8 * k)]
+    cases += [gen_sneakier(rng) for _ in range(5 * k)]
     # quick jobs, free-running, many calls: does run_jobs always return?
-    cases.append({"kind": "jobs_race", "cores": 3, "jobs": 3, "repeat": 150})
+    cases.append({"kind": "jobs_race", "cores": 3, "jobs": 3, "repeat": 100})
     if thorough:
         cases.append({"kind": "jobs_race", "cores": 2, "jobs": 1, "repeat": 300})
         cases.append({"kind": "jobs_race", "cores": 4, "jobs": 6, "repeat": 100})
@@ -220,8 +285,9 @@ def oracle_batch(procs, serial, b, free=False):
     if any(b["pend"]) or any(b["resq"]):
         hard.append("left behind after the call: pending jobs %s, unconsumed results %s" % (b["pend"], b["resq"]))
     if excs:
-        if not b["raised"] or b["raised"][0] != "WorkError" or b["raised"][1] not in excs:
-            hard.append("a job raised %s but map reported %s" % (excs, b["raised"]))
+        # map keeps collecting and reports the exception of the LAST failing input (C14_map_order: last_exc)
+        if not b["raised"] or b["raised"][0] != "WorkError" or b["raised"][1] != excs[-1]:
+            hard.append("jobs raised %s (in input order) but map reported %s" % (excs, b["raised"]))
     elif b["raised"]:
         hard.append("no job raised but map reported %s" % (b["raised"],))
     order = None
@@ -236,7 +302,7 @@ def oracle(c, r):
     out = []
     if k in ("smap", "smap_free"):
         for bi, (batch, b) in enumerate(zip(c["batches"], r["batches"])):
-            exp = [["exc", x] if m == 1 else ["ok", fval(x)] for x, m, *_ in batch["jobs"]]
+            exp = [expected_outcome(batch, x, m) for x, m, *_ in batch["jobs"]]
             if b["serial"] != exp:
                 out.append(("batch %d: serial evaluation gives %s, expected %s" % (bi, b["serial"], exp), []))
             hard, order = oracle_batch(c["procs"], b["serial"], b)
@@ -284,6 +350,52 @@ def oracle(c, r):
             serial = [i for i, (kd, _) in enumerate(stream[:drawn]) if kd == "ok"]
             if r["ks"] != serial:
                 out.append(("accepted points %s, serial evaluation accepts %s" % (r["ks"], serial), cls))
+        return out
+    if k == "smap_twofit":
+        if not r["raised"] or r["raised"][0] != "AssertionError" or r["yields"] or any(r["evals"]) or any(r["pend"]) or any(r["resq"]):
+            out.append(("two fitness arguments: expected AssertionError before anything is queued, got %s" % r, []))
+        return out
+    if k == "sneakier":
+        for sp, res in zip(c["pools"], r["results"]):
+            exp = [sp["mul"] * x + 1 for x in sp["xs"]]
+            if res != ["ok", exp]:
+                cls = [SNEAKIER_CLASS] if c["order"] == "constructed-first" and len(c["pools"]) >= 2 else []
+                out.append(("SneakierPool(fitness = %d*x+1).map over %s gave %s, serial evaluation gives %s" % (sp["mul"], sp["xs"], res, exp), cls))
+        return out
+    if k in ("grid_fit", "sens_fit"):
+        ser, par = r["serial"], r["parallel"]
+        total = c["n"] ** len(c["grid"]) if k == "grid_fit" else c["n"]
+        if any(e > 1 for e in par["evals"]):
+            out.append(("a cell was evaluated more than once: %s" % par["evals"], []))
+        # serial reference itself: first failing cell, or every cell in place
+        if c["fail"]:
+            if ser["raised"] != ["CellError", c["fail"][0]]:
+                out.append(("number_of_cores=1 reported %s, first failing cell is %d" % (ser["raised"], c["fail"][0]), []))
+            if not par["raised"]:
+                out.append(("cells %s fail but the parallel run returned normally" % c["fail"], []))
+            elif par["raised"][0] != "CellError" or par["raised"][1] not in c["fail"]:
+                known = (k == "grid_fit" and par["raised"][0] == "AttributeError" and "number" in str(par["raised"][1]))
+                out.append(("cells %s fail: number_of_cores=1 raises %s, number_of_cores=%d raises %s (the failing fit's own "
+                            "exception is not what the caller gets)" % (c["fail"], ser["raised"], c["cores"], par["raised"]),
+                            [GRIDFAIL_CLASS] if known else []))
+            return out
+        if ser["raised"] or par["raised"]:
+            out.append(("no cell fails but an exception was reported: serial %s parallel %s" % (ser["raised"], par["raised"]), []))
+            return out
+        if any(e != 1 for e in par["evals"]):
+            out.append(("evaluation counts per cell %s" % par["evals"], []))
+        if k == "grid_fit":
+            d = len(c["grid"])
+            digits = [[(i // c["n"] ** (d - 1 - j)) % c["n"] for j in range(d)] for i in range(total)]
+            for name, res in (("number_of_cores=1", ser), ("number_of_cores=%d" % c["cores"], par)):
+                if res["cells"] != digits:
+                    out.append(("%s: result cell k is not the fit of cell k: %s" % (name, res["cells"]), []))
+                if sorted(res["csv"]) != [[i] + digits[i] for i in range(total)]:
+                    out.append(("%s: results.csv rows %s" % (name, res["csv"]), []))
+        else:
+            for name, res in (("number_of_cores=1", ser), ("number_of_cores=%d" % c["cores"], par)):
+                if res["lls"] != list(range(total)) or res["csv"] != list(range(total)):
+                    out.append(("%s: perturbed fits %s, results.csv index %s (expected job order)" % (name, res["lls"], res["csv"]), []))
         return out
     if k == "jobs_race":
         if r["wrong"]:
@@ -371,7 +483,7 @@ def coq_case(c, r):
     k = c["kind"]
     fx = cbool(MAP_FIXED)
     if k == "smap":
-        bs = clist([cpair(clist([c_out("exc" if m == 1 else "ok", x if m == 1 else fval(x)) for x, m in b["jobs"]]), c_sched(b["sched"]))
+        bs = clist([cpair(clist([c_out(*expected_outcome(b, x, m)) for x, m in b["jobs"]]), c_sched(b["sched"]))
                     for b in c["batches"]])
         return "CSmap %s %s %s %s" % (fx, cnat(c["procs"]), bs, clist([c_obs(b) for b in r["batches"]]))
     if k == "emcee":
@@ -387,6 +499,25 @@ def coq_case(c, r):
         else:
             exp = "(IOk %s)" % clist([cpair(cZ(kk), cZ(f)) for kk, f in zip(r["ks"], r["foms"])])
         return "CInit %s %s %s %s %s %s" % (fx, cnat(c["n"]), cnat(c["total"]), stream, scheds, exp)
+    if k in ("grid_fit", "sens_fit"):
+        par = r["parallel"]
+        total = c["n"] ** len(c["grid"]) if k == "grid_fit" else c["n"]
+        outs = clist([c_out("exc", i) if i in c["fail"] else c_out("ok", i) for i in range(total)])
+        if not par["raised"]:
+            raised = "None"
+        elif par["raised"][0] == "CellError" and isinstance(par["raised"][1], int):
+            raised = "(Some (Some %s))" % cZ(par["raised"][1])
+        else:
+            raised = "(Some None)"
+        if k == "grid_fit":
+            stored = [row[0] for row in par["csv"]]
+            d = len(c["grid"])
+            final = [None if cell is None else sum(v * c["n"] ** (d - 1 - j) for j, v in enumerate(cell)) for cell in par.get("cells", [])]
+        else:
+            stored = par["csv"]
+            final = par.get("lls", [])
+        return "CCaller %s %s %s %s %s %s %s" % (cbool(k == "sens_fit"), cnat(c["cores"] - 1), outs, c_jsched(c["sched"]), raised,
+                                                c_nats(stored), clist([copt(v, cZ) for v in final]))
     if k == "jobs":
         outs = clist([c_out("exc" if m == 1 else "ok", x if m == 1 else fval(x)) for x, m in c["jobs"]])
         items = clist([cpair("(Some %s)" % cnat(it[1]), cZ(it[2])) if it[0] == "ok" else cpair("None", cZ(it[1])) for it in r["items"]])
@@ -412,6 +543,10 @@ def nontrivial(c):
         return c["cores"] >= 3 and len(c["jobs"]) >= 2
     if k == "jobs_race":
         return True
+    if k in ("grid_fit", "sens_fit"):
+        return c["cores"] >= 3
+    if k == "sneakier":
+        return c["procs"] >= 2
     return False
 
 
@@ -424,9 +559,29 @@ def describe(c):
         return {"kind": k, "n": c["n"], "total": c["total"], "stream": len(c["stream"])}
     if k == "emcee":
         return {"kind": k, "procs": c["procs"], "walkers": len(c["vals"])}
-    if k == "jobs_race":
+    if k in ("jobs_race", "smap_twofit"):
         return dict(c)
+    if k in ("grid_fit", "sens_fit"):
+        return {"kind": k, "cores": c["cores"], "n": c["n"], "grid": c.get("grid"), "failing_cells": c["fail"]}
+    if k == "sneakier":
+        return {"kind": k, "procs": c["procs"], "order": c["order"], "pools": len(c["pools"])}
     return {"kind": k, "cores": c["cores"], "jobs": len(c["jobs"]), "failing": sum(1 for j in c["jobs"] if j[1] == 1)}
+
+
+def normal_form(c):
+    """the abstract program up to what cannot matter: with the ordered blocking map a P is a no-op (fstep P = fadvance,
+    idempotent), so smap/init/emcee programs that differ only in their P's are the same program"""
+    if not MAP_FIXED:
+        return c
+    def strip(s):
+        return [a for a in s if a[0] != "P"]
+    if c["kind"] == "smap":
+        return dict(c, batches=[dict(b, sched=strip(b["sched"])) for b in c["batches"]])
+    if c["kind"] == "init":
+        return dict(c, scheds=[strip(s) for s in c["scheds"]])
+    if c["kind"] == "emcee":
+        return dict(c, sched=strip(c["sched"]))
+    return c
 
 
 def shards(cases, n):
@@ -491,10 +646,10 @@ def run(ctx):
     coq_cases, coq_idx = [], []
     fails = {}
     for i, (c, r) in enumerate(zip(cases, results)):
-        ctx.count_case(c, nontrivial(c), c["kind"])
+        ctx.count_case(normal_form(c), nontrivial(c), c["kind"])
         ctx.oracle["cases"] += 1
         d = describe(c)
-        ctx.hist("workers", d["procs"] if "procs" in d else d["n"] if "n" in d else d["cores"] - 1)
+        ctx.hist("workers", d["procs"] if "procs" in d else d["cores"] - 1 if "cores" in d else d["n"])
         if c["kind"] == "jobs_race" and "ok" in r:
             ctx.notes.setdefault("jobs_race", []).append({"case": d, "hangs": r["ok"]["hangs"], "calls": r["ok"]["calls"],
                                                           "calls_leaving_a_worker_blocked_in_get": r["ok"].get("stuck")})
